@@ -739,6 +739,9 @@ subroutine solve_t(initial_values, t, min_iter, max_iter, tol, offset, convergen
      return
   end if
 
+  ! No errors so far (also the result if `max_iter` allows no iterations)
+  error_code = 0
+
   ! Solve
   do iteration = 1, max_iter
 
